@@ -115,6 +115,10 @@ func (r *scanner) rangeWithLimit(ctx context.Context, start []byte, end []byte, 
 	if err != nil {
 		return nil, err
 	}
+	// a compaction may have started while the scan was running, see scan()
+	if err = r.checkCompactRace(ctx, revision, false); err != nil {
+		return nil, err
+	}
 	return receiver.result, nil
 }
 
@@ -290,6 +294,16 @@ func (r *scanner) scan(ctx context.Context, start []byte, end []byte, revision u
 	for _, e := range errList {
 		if e != nil {
 			return 0, e
+		}
+	}
+
+	if !compact {
+		// not every engine iterates on a snapshot taken before the first check (memkv reads live data, badger takes
+		// its snapshot when the iterator is created), so a compaction beyond the read revision which started while
+		// the workers were scanning may have removed versions this read needs. The compact record is raised before
+		// any deletion, thus checking it again here refuses such a read instead of returning partial data.
+		if err = r.checkCompactRace(ctx, revision, false); err != nil {
+			return 0, err
 		}
 	}
 
